@@ -272,6 +272,7 @@ def shards(tier, seed):
         for w in windows:
             out.append({"machine": "scale", "setting": setting, "w": w, "tier": tier})
     out.append({"machine": "fit", "tier": tier})
+    out.append({"machine": "personalize", "tier": tier})
     return out
 
 
@@ -296,6 +297,8 @@ def run_shard(shard):
         for band in ((0.2, 0.4), (0.3, 0.6)):
             for factor in (0.1, 0.5):
                 explore_scale(shard["setting"], shard["w"], band, factor, acc, max_steps=12)
+    elif shard["machine"] == "personalize":
+        run_personalize_binding(acc, shard["tier"])
     else:
         run_fit_binding(acc, shard["tier"])
     return acc.to_dict()
@@ -366,7 +369,65 @@ def run_fit_binding(acc, tier):
                 type(algo)._update_temperature = orig
 
 
+def run_personalize_binding(acc, tier):
+    """The sampling-based personalizations use the same annealing mixin: during a real `personalize` the temperature
+    must be updated once per iteration and follow exactly the trace of the stepped machine."""
+    from ..models import MODEL_SPECS, build_model, cohort_dataset
+
+    spec = MODEL_SPECS["logistic_d2_s1_diag"]
+    ds = cohort_dataset(["a", "b"], spec)
+    grid = [(algo, n, P, frac, burn) for algo in ("mean_posterior", "mode_posterior") for n in (6, 9)
+            for P in (2, 3) for frac in (0.5, 1.0) for burn in (0.0, 0.5)]
+    if tier == "quick":
+        grid = grid[::2]
+    for name, n_iter, P, frac, burn in grid:
+        ann = {"do_annealing": True, "initial_temperature": 3, "n_plateau": P, "n_iter_frac": frac}
+        case = {"machine": "personalize", "algorithm": name, "n_iter": n_iter, "annealing": ann, "burn_in_frac": burn}
+        acc.evaluation()
+        acc.state()
+        acc.transition(n_iter)
+        with warnings.catch_warnings():
+            warnings.simplefilter("ignore")
+
+            def build():
+                return algorithm_factory(AlgorithmSettings(name, n_iter=n_iter, progress_bar=False, seed=0,
+                                                           n_burn_in_iter_frac=burn, annealing=ann))
+            ref_algo = build()
+            ref_algo._initialize_annealing()
+            expected = []
+            for k in range(1, n_iter + 1):
+                ref_algo.current_iteration = k
+                ref_algo._update_temperature()
+                expected.append((k, ref_algo.temperature))
+            algo = build()
+            seen = []
+            orig = type(algo)._update_temperature
+
+            def spy(self, _orig=orig):
+                _orig(self)
+                seen.append((self.current_iteration, self.temperature))
+
+            try:
+                type(algo)._update_temperature = spy
+                algo.run(build_model(spec), ds)
+            except Exception as e:
+                acc.violation(f"personalize|accepted annealing configuration raises {type(e).__name__}|{name}", str(e), case)
+                acc.outcome("personalize:raised")
+                continue
+            finally:
+                type(algo)._update_temperature = orig
+        acc.outcome("personalize:completed")
+        acc.nontriv(repr((name, n_iter, P, frac, burn, seen)))
+        if seen != expected:
+            kind = "not updated once per iteration" if len(seen) != n_iter else "trace differs from the stepped schedule"
+            acc.violation(f"personalize|temperature {kind}|{name}", f"seen {seen} expected {expected}", case)
+
+
 def replay(case):
+    if case.get("machine") == "personalize":
+        acc = Acc()
+        run_personalize_binding(acc, "thorough")
+        return [{"signature": v["signature"], "message": v["message"]} for v in acc.violations.values()]
     if case.get("machine") == "temperature":
         label, trace, problems = run_temperature_config(case["config"])
         return [{"signature": s, "message": f"{m} trace={trace}"} for s, m in problems]
